@@ -3758,7 +3758,7 @@ func recv(n *node) {
 				// Fast: channel read doesn't block
 				ch := value(f)
 				if r, ok := ch.TryRecv(); ok {
-					getFrame(f, l).data[i] = r
+					setRecv(getFrame(f, l).data, i, r)
 					return tnext
 				}
 				// Slow: channel is blocked, allow cancel
@@ -3766,11 +3766,11 @@ func recv(n *node) {
 				done := f.done
 				f.mutex.RUnlock()
 
-				var chosen int
-				chosen, getFrame(f, l).data[i], _ = reflect.Select([]reflect.SelectCase{done, {Dir: reflect.SelectRecv, Chan: ch}})
+				chosen, r, _ := reflect.Select([]reflect.SelectCase{done, {Dir: reflect.SelectRecv, Chan: ch}})
 				if chosen == 0 {
 					return nil
 				}
+				setRecv(getFrame(f, l).data, i, r)
 				return tnext
 			}
 		}
@@ -3788,11 +3788,22 @@ func recv(n *node) {
 		} else {
 			i := n.findex
 			n.exec = func(f *frame) bltn {
-				getFrame(f, l).data[i], _ = value(f).Recv()
+				r, _ := value(f).Recv()
+				setRecv(getFrame(f, l).data, i, r)
 				return tnext
 			}
 		}
 	}
+}
+
+// setRecv stores a received value in a frame. The variable in the frame is set
+// in place when possible, as it may be a result or a captured variable.
+func setRecv(data []reflect.Value, i int, r reflect.Value) {
+	if d := data[i]; d.CanSet() && r.IsValid() && r.Type().AssignableTo(d.Type()) {
+		d.Set(r)
+		return
+	}
+	data[i] = r
 }
 
 func recv2(n *node) {
